@@ -7,7 +7,7 @@ RULE = ("the C03 triple/configuration stream with the base minor swept over 0-5;
         "with pure jsonschema (Draft-4) against nbformat's schema file for the minor version the merged notebook itself declares. "
         "Non-trivial: >= 1 conflicted decision or >= 1 custom action or a mixed-minor triple; distinct by (triple, configuration, "
         "PATH variant). Inputs are validated by the same oracle first; invalid generations are discarded and counted.")
-FLOOR = {"quick": 800, "thorough": 15000}
+FLOOR = {"quick": 2500, "thorough": 15000}
 REQUIRED_MONITORS = ("merge_returned", "schema_oracle")
 ASSUMPTIONS = ["nbformat's shipped per-minor schema files define validity; nbformat.validate is not used (it mutates and relaxes)",
                "duplicate cell ids are counted as an observation, not judged (the JSON schema does not express uniqueness)",
